@@ -456,6 +456,38 @@ func runCorpusTL1(c *core.Ctx, prop string, cp Corpus, k, kmut, kjson, kre, kmut
 		if nBytes%1499 == 1 {
 			c.Sample(map[string]any{"corpus": cp.Name, "type": p.Tn, "bytes": hexs(p.B), "boxed": p.Boxed, "spec_accepts": p.Dec.OK, "impl_err": s.Err})
 		}
+		// the []byte variant is a generated TL1 reader too: same verdict, same consumption, and what it
+		// accepted is rewritten exactly (its dictionaries are slices: no sorting, no deduplication)
+		if prop == "C02" && cp.BytesVers != "" && (cp.BytesVers == "*" || strings.HasPrefix(p.Tn, cp.BytesVers)) && (nBytes%2 == 0 || len(p.B) > 80) {
+			r2, err := b.script(p.Tn, true, map[string]any{"op": op, "in": p.B})
+			if err != nil {
+				firstErr = err
+				return
+			}
+			s2 := r2.Steps[0]
+			c.Add("evaluations", 1)
+			c.Add("bytes_variant_inputs", 1)
+			bad2 := ""
+			switch {
+			case s2.Panic != "":
+				bad2 = "panic: " + s2.Panic
+			case p.Dec.OK && s2.Err != "":
+				bad2 = "spec accepts, implementation rejects: " + s2.Err
+			case !p.Dec.OK && s2.Err == "":
+				bad2 = fmt.Sprintf("spec rejects, implementation accepts (consumed %d)", s2.Consumed)
+			case p.Dec.OK && s2.Consumed != p.Dec.Consumed:
+				bad2 = fmt.Sprintf("consumed %d, spec %d", s2.Consumed, p.Dec.Consumed)
+			case p.Dec.OK && s2.Dump != nil:
+				re := pick(s2.Dump.TL1, s2.Dump.TL1B, p.Boxed)
+				if !eqInts(re, p.B[:p.Dec.Consumed]) && !eqInts(re, p.Dec.Re) {
+					bad2 = fmt.Sprintf("accepted prefix re-encodes to %s", hexs(re))
+				}
+			}
+			if bad2 != "" {
+				c.Violate(fmt.Sprintf("tl1-bytes-bytesvar/%s/%s/%s/%s", cp.Name, p.Tn, op, hexs(p.B)),
+					fmt.Sprintf("type %s, []byte variant, %s of %s: %s", p.Tn, op, hexs(p.B), bad2), map[string]any{"corpus": cp, "payload": p})
+			}
+		}
 	}
 	longStr := "{}"
 	if prop == "C02" {
